@@ -161,8 +161,8 @@ func execSteps(w *world.World, s *world.Session, b *world.Broker, steps []Step) 
 				s.BrokerClose()
 			case "broker-garbage":
 				s.MQSend([]byte{0xf0, 0x02, 0x00, 0x00}) // reserved packet type 15
-			case "broker-truncated":
-				s.MQSend([]byte{0x30, 0xff, 0xff, 0xff, 0xff, 0x7f}) // malformed remaining length
+			case "broker-illegal":
+				s.MQSend(mqttref.EncSubscribe(7, "x", 0)) // decodable packet a broker must never send
 			case "sn-garbage":
 				s.SNSend([]byte{0x05, 0x19, 0x00, 0x00, 0x00}) // undefined packet type 0x19
 			case "sn-short":
